@@ -36,32 +36,28 @@ def rules(t):
         if not grown: r.bad(f"{f.path}|no-resize", s, "max_clients can be raised above the number of client slots: later handshakes are denied although the limit allows them")
         elif not any("resize" in fmt(t.stored(x)) or t.mentions_call(t.stored(x), r"into_boxed_slice$|resize") for x in grown): r.bad(f"{f.path}|resize-shape", s, "clients replaced but not resized to the new limit")
     out.append(r)
-    r = RuleResult("C18.c", "timeout / keep-alive predicates keep their shape", floor=3)
+    r = RuleResult("C18.c", "timeout and keep-alive predicates: a session is timed out only when `last_received + timeout < now`; a keep-alive is sent when `last_send + rate <= now` and re-arms the timer", floor=3)
     u = t.fn("NetcodeServer::update_client")
-    tmo = [x for x in t.sites(u) if x.node["k"] == "call" and "PartialOrd" in callee_name(x.node) and "last_packet_received_time" in fmt(t.arg(x, 0)) + fmt(t.arg(x, 1))]
-    for x in tmo:
-        r.site(x, fmt(t.arg(x, 0))[:60])
-        lhs_deadline = "last_packet_received_time" in fmt(t.arg(x, 0)) and "Add" in fmt(t.arg(x, 0)) + callee_name(x.node) or "add" in fmt(t.arg(x, 0))
-        m = method_of(callee_name(x.node))
-        if not ((m == "lt" and "last_packet_received_time" in fmt(t.arg(x, 0)) and "current_time" in fmt(t.arg(x, 1))) or (m == "gt" and "current_time" in fmt(t.arg(x, 0)))): r.bad("server-timeout-op", x, f"server timeout predicate changed: {m}({fmt(t.arg(x,0))[:40]}, {fmt(t.arg(x,1))[:30]})")
+    is_deadline = lambda a: "last_packet_received_time" in fmt(a) and ("Add" in fmt(a) or "add" in fmt(a))
+    is_now = lambda b: fmt(strip(b)).endswith("current_time") or fmt(strip(b)).endswith(".current_time")
+    to = list(rel_edges(t, u, is_deadline, is_now, "Lt"))
+    for e, br in to: r.site(Site(u, br["bb"], 0, u.blocks[br["bb"]]["term"]), "server timeout test")
+    if not to: r.bad("server-timeout-missing", None, "no `last_packet_received_time + timeout < current_time` test in update_client (a boundary change such as <= also lands here)")
     st = [s_ for s_ in t.stores(CONN, "state", u) if "Disconnected" in fmt(t.stored(s_))]
     if not st: r.bad("server-timeout-effect", None, "timed-out client is not marked Disconnected")
-    if not tmo: r.bad("server-timeout-missing", None, "no server timeout predicate")
-    ka = [br for br in t.branches(u) if br["kind"] == "bool" and br["cond"][0] == "cmp" and "last_packet_send_time" in fmt(br["raw"])]
-    for br in ka:
-        r.site(Site(u, br["bb"], 0, u.blocks[br["bb"]]["term"]), fmt(br["raw"])[:90])
-        if br["cond"][1] not in ("Le", "Ge"): r.bad("keepalive-op", None, "keep-alive cadence predicate changed")
-        st = [s for s in t.stores(CONN, "last_packet_send_time", u) if s.bb in t.region_from(u, br["t_edge"])]
-        if not st: r.bad("keepalive-refresh", None, "keep-alive sent without refreshing last_packet_send_time")
+    for s_ in st:
+        if to and not any(t.edge_dominates(u, e, s_.bb) for e, br in to): r.bad("server-timeout-dom", s_, "a client is marked Disconnected in update_client on a path that did not establish the timeout")
+    is_next_ka = lambda a: "last_packet_send_time" in fmt(a) and ("Add" in fmt(a) or "add" in fmt(a))
+    ka = list(rel_edges(t, u, is_next_ka, is_now, "Le"))
+    for e, br in ka:
+        r.site(Site(u, br["bb"], 0, u.blocks[br["bb"]]["term"]), "keep-alive test")
+        stt = [s_ for s_ in t.stores(CONN, "last_packet_send_time", u) if s_.bb in t.region_from(u, e)]
+        if not stt: r.bad("keepalive-refresh", None, "keep-alive sent without refreshing last_packet_send_time")
+    if not ka: r.bad("keepalive-op", None, "no `last_packet_send_time + send rate <= current_time` keep-alive test in update_client")
     c = t.fn("NetcodeClient::update_internal_state")
-    ct = [br for br in t.branches(c) if br["kind"] == "bool" and "last_packet_received_time" in fmt(br.get("raw"))]
-    for s in t.sites(c):
-        n = s.node
-    tm = [s for s in t.sites(c) if s.node["k"] == "call" and "PartialOrd" in callee_name(s.node) and "last_packet_received_time" in fmt(t.arg(s, 0))]
-    for s in tm:
-        r.site(s, callee_name(s.node)[-20:])
-        if method_of(callee_name(s.node)) != "lt": r.bad("client-timeout-op", s, "client timeout predicate changed")
-    if not tm: r.bad("client-timeout-missing", None, "no client timeout predicate")
+    tm = list(rel_edges(t, c, is_deadline, is_now, "Lt"))
+    for e, br in tm: r.site(Site(c, br["bb"], 0, c.blocks[br["bb"]]["term"]), "client timeout test")
+    if not tm: r.bad("client-timeout-missing", None, "no `last_packet_received_time + timeout < current_time` test in the client")
     out.append(r)
     r = RuleResult("C18.d", "client regenerates its packet on every successful update; failover moves to the next address and restarts the request", floor=2)
     upd = t.fn("NetcodeClient::update")
